@@ -424,6 +424,67 @@ def rule_r7(facts, col):
                 col.ok("C16.R7", key, body.where(bb), "rewind target agrees with the initial positioning in %d constructor(s)" % ncons)
 
 
+def rule_r8(facts, col):
+    """end-of-data is REPORTED: Repeat::done()==true, Repeat::again()==false and (for byte sources) read()==0 without a
+    further repetition lead to the verdict EOF (or an error) and to nothing else"""
+    rb = repeat_blocks(facts)
+    for body in facts.impl_bodies(BLOCK_TRAIT, "work"):
+        has_read = bool(list(body.calls_to(READ)))
+        if body.self_adt not in rb and not has_read:
+            continue
+        vd = effects.verdict_defs(body)
+        by_bb = {}
+        for vb, verdict, e in vd:
+            by_bb.setdefault(vb, set()).add(verdict)
+
+        def verdicts_from(start, cut=()):
+            r = body.reachable(start, edge_filter=lambda a_, b_: (a_, b_) not in cut)
+            out = set()
+            for b in r:
+                out |= by_bb.get(b, set())
+            return out
+        again_true_edges = set()
+        for bb, t in body.calls_to(AGAIN):
+            for s_, tr, fa in _result_switches(body, bb):
+                again_true_edges.add((s_, tr))
+        for what, q, outcome in (("done()==true", DONE, True), ("again()==false", AGAIN, False)):
+            for bb, t in body.calls_to(q):
+                for s_, tr, fa in _result_switches(body, bb):
+                    start = tr if outcome else fa
+                    got = verdicts_from(start)
+                    key = "%s:%s" % (body.q, what)
+                    extra = got - {"EOF", "Err"}
+                    if extra:
+                        col.bad("C16.R8", key, body.where(bb),
+                                "after %s work() can return %s instead of EOF: the source never announces its end (downstream waits "
+                                "forever) or keeps being polled" % (what, sorted(extra)), {})
+                    elif got:
+                        col.ok("C16.R8", key, body.where(bb), "%s leads to EOF" % what)
+        if has_read:
+            for edge, f in edge_facts(body):
+                isz = False
+                if f[0] == "IntEq" and f[2] == 0:
+                    x = f[1]
+                    isz = True
+                elif f[0] == "Eq" and (_const_is(f[2], 0) or _const_is(f[1], 0)):
+                    x = f[1] if _const_is(f[2], 0) else f[2]
+                    isz = True
+                if not isz:
+                    continue
+                px = peel(x)
+                if not (px.k == "call" and px.q == READ):
+                    continue
+                got = verdicts_from(edge[1], cut=again_true_edges)
+                key = "%s:read()==0" % body.q
+                extra = got - {"EOF", "Err"}
+                if extra:
+                    col.bad("C16.R8", key, body.where(edge[0]),
+                            "read() returned 0 (end of file / peer closed) and no further repetition was granted, yet work() can return "
+                            "%s instead of EOF: the source spins on the exhausted descriptor and its consumers never finish" % sorted(extra), {})
+                elif got:
+                    col.ok("C16.R8", key, body.where(edge[0]), "read()==0 without another repetition leads to EOF")
+
+
 def run(ctx):
     facts = ctx.facts("default")
     ctx.anchor("C16", REPEAT_ADT in facts.adts, "struct Repeat")
@@ -434,6 +495,8 @@ def run(ctx):
     rule_r4(facts, ctx)
     rule_r5(facts, ctx)
     rule_r6(facts, ctx)
+    rule_r8(facts, ctx)
+    ctx.floor("C16.R8", 6, "done()/again() outcomes of the three finite sources + read()==0 of File/Tcp sources")
     rule_r7(facts, ctx)
     ctx.floor("C16.R7", 2, "rewinds of FileSource and SigMFSource")
     ctx.floor("C16.R6", 2, "again() in FileSource::work (read()==0) and SigMFSource::work (left == 0)")
